@@ -12,3 +12,5 @@ tier = sys.argv[3] if len(sys.argv) > 3 else 'quick'
 ctx = core.Ctx(prop, tier, int(os.environ.get('SEED', '1')), 'model_checking')
 session_check.run(ctx, prop, shapes=shapes)
 print('violations', len(ctx.violations), 'known', dict(ctx.known_hit), 'trial', trial)
+for r in (ctx.coverage.get('per_shape') or []):
+    print(r)
